@@ -36,7 +36,27 @@ func NewTrace(path string) *Trace {
 	if err != nil {
 		panic(err)
 	}
-	return &Trace{f: f, w: bufio.NewWriterSize(f, 1<<20)}
+	t := &Trace{f: f, w: bufio.NewWriterSize(f, 1<<20)}
+	allMu.Lock()
+	allTraces = append(allTraces, t)
+	allMu.Unlock()
+	return t
+}
+
+var (
+	allMu     sync.Mutex
+	allTraces []*Trace
+)
+
+// FlushAll flushes every open trace (used when a driver has to stop early).
+func FlushAll() {
+	allMu.Lock()
+	defer allMu.Unlock()
+	for _, t := range allTraces {
+		t.mu.Lock()
+		t.w.Flush()
+		t.mu.Unlock()
+	}
 }
 
 // Emit writes one event; it assigns and returns the event id.
